@@ -312,39 +312,34 @@ Proof.
     apply filter_In. tauto.
 Qed.
 
-Lemma import_ok_same f l g :
-  import_ok f l = true -> In g l -> f_id g = f_id f ->
-  f_ctx g = f_ctx f /\ f_topic g = f_topic f.
+Lemma a_ctxs_delete_mem c i l :
+  mem c (a_ctxs (a_delete i l)) = true <->
+  c = 0 \/ exists g, In g l /\ f_id g <> i /\ registers g = true /\ f_id g = c.
 Proof.
-  unfold import_ok. rewrite forallb_forall. intros H Hg E. specialize (H g Hg).
-  rewrite E, N.eqb_refl in H. cbn [negb orb] in H. apply andb_true_iff in H.
-  destruct H as [H1 H2]. apply N.eqb_eq in H1. apply bytes_eqb_eq in H2. auto.
+  rewrite a_ctxs_mem. split.
+  - intros [H|(g & Hg & Hr & E)]; [left; exact H|]. apply a_delete_In in Hg.
+    right. exists g. tauto.
+  - intros [H|(g & Hg & Hn & Hr & E)]; [left; exact H|]. right. exists g.
+    split; [apply a_delete_In; tauto|tauto].
 Qed.
 
-Lemma fresh_import_ok f l : fresh (f_id f) l = true -> import_ok f l = true.
-Proof.
-  unfold fresh, import_ok. rewrite !forallb_forall. intros H g Hg.
-  rewrite (H g Hg). reflexivity.
-Qed.
-
+(* replacing (or adding) the frame with id [f_id f]: the other registrations stay, the one of
+   that id is [f]'s *)
 Lemma a_ctxs_insert c f l :
-  StronglySorted id_lt l -> import_ok f l = true ->
-  mem c (a_ctxs (a_insert f l)) = (registers f && (c =? f_id f)) || mem c (a_ctxs l).
+  StronglySorted id_lt l ->
+  mem c (a_ctxs (a_insert f l))
+  = (registers f && (c =? f_id f)) || mem c (a_ctxs (a_delete (f_id f) l)).
 Proof.
-  intros Hs Hi. apply eq_iff_eq_true.
-  rewrite orb_true_iff, andb_true_iff, N.eqb_eq, !a_ctxs_mem. split.
+  intros Hs. apply eq_iff_eq_true.
+  rewrite orb_true_iff, andb_true_iff, N.eqb_eq, a_ctxs_delete_mem, a_ctxs_mem. split.
   - intros [H0|(g & Hg & Hr & E)]; [right; left; exact H0|].
     apply a_insert_In in Hg; [|exact Hs]. destruct Hg as [->|[Hg Hn]].
     + left. auto.
     + right. right. exists g. auto.
-  - intros [[Hr E]|[H0|(g & Hg & Hr & E)]].
+  - intros [[Hr E]|[H0|(g & Hg & Hn & Hr & E)]].
     + right. exists f. split; [apply a_insert_In; auto|auto].
     + left. exact H0.
-    + right. destruct (N.eq_dec (f_id g) (f_id f)) as [Ei|Ei].
-      * destruct (import_ok_same _ _ _ Hi Hg Ei) as [Ec Et].
-        exists f. split; [apply a_insert_In; auto|]. split; [|congruence].
-        unfold registers in *. rewrite <- Ec, <- Et. exact Hr.
-      * exists g. split; [apply a_insert_In; auto|auto].
+    + right. exists g. split; [apply a_insert_In; auto|auto].
 Qed.
 
 (* ------------------------------------------------------------------------ *)
@@ -362,41 +357,203 @@ Proof.
   intros HI. eapply Forall_impl; [|exact (inv_ok _ _ HI)]. intros g Hg. exact (proj1 Hg).
 Qed.
 
+Lemma get_spec s a i : Inv s a -> i < two128 -> get s i = a_get a i.
+Proof.
+  intros HI Hi. unfold get, a_get. rewrite (inv_stream _ _ HI).
+  apply stream_get; [exact Hi|apply (Inv_bounded _ _ HI)].
+Qed.
+
+Lemma fresh_find i l : fresh i l = true -> find (fun g => f_id g =? i) l = None.
+Proof.
+  unfold fresh. rewrite forallb_forall. intros H.
+  destruct (find (fun g => f_id g =? i) l) as [g|] eqn:E; [|reflexivity].
+  apply find_some in E. destruct E as [Hg E]. apply H in Hg. rewrite E in Hg. discriminate.
+Qed.
+
+(* [drop_old]: what an overwriting import deletes first *)
+
+Lemma same_keys_true old f :
+  same_keys old f = true <-> f_ctx old = f_ctx f /\ f_topic old = f_topic f.
+Proof. unfold same_keys. rewrite andb_true_iff, N.eqb_eq, bytes_eqb_eq. reflexivity. Qed.
+
+Lemma drop_old_same s f :
+  s_stream (drop_old s f) = s_stream s /\ s_gcq (drop_old s f) = s_gcq s /\
+  s_now (drop_old s f) = s_now s /\ s_bcast (drop_old s f) = s_bcast s.
+Proof.
+  unfold drop_old. destruct (get s (f_id f)) as [old|]; [|auto].
+  destruct (same_keys old f); cbn [s_stream s_gcq s_now s_bcast]; auto.
+Qed.
+
+Lemma drop_old_fresh s f : get s (f_id f) = None -> drop_old s f = s.
+Proof. unfold drop_old. intros ->. reflexivity. Qed.
+
+(* the two index partitions after [drop_old]: still sorted; every key left is the key of a live
+   frame and, when that frame has [f]'s id, it is the very key [f] is about to (re)write; the
+   keys of all frames with another id are still there *)
+Lemma drop_old_index s a f :
+  Inv s a -> f_id f < two128 ->
+  StronglySorted key_lt (s_itopic (drop_old s f)) /\
+  StronglySorted key_lt (s_ictx (drop_old s f)) /\
+  (forall k, In k (map fst (s_itopic (drop_old s f))) ->
+     exists g, In g (a_live a) /\ k = tkey g /\ (f_id g = f_id f -> tkey g = tkey f)) /\
+  (forall g, In g (a_live a) -> f_id g <> f_id f ->
+     In (tkey g) (map fst (s_itopic (drop_old s f)))) /\
+  (forall k, In k (map fst (s_ictx (drop_old s f))) ->
+     exists g, In g (a_live a) /\ k = ckey g /\ (f_id g = f_id f -> ckey g = ckey f)) /\
+  (forall g, In g (a_live a) -> f_id g <> f_id f ->
+     In (ckey g) (map fst (s_ictx (drop_old s f)))).
+Proof.
+  intros HI Hi.
+  pose proof (inv_sorted _ _ HI) as Hs.
+  pose proof (inv_ok _ _ HI) as Hok. rewrite Forall_forall in Hok.
+  pose proof (inv_itopic _ _ HI) as Ht. pose proof (inv_ictx _ _ HI) as Hc.
+  pose proof (inv_itopic_sorted _ _ HI) as Hts. pose proof (inv_ictx_sorted _ _ HI) as Hcs.
+  unfold drop_old. rewrite (get_spec _ _ _ HI Hi). unfold a_get.
+  destruct (find (fun g => f_id g =? f_id f) (a_live a)) as [old|] eqn:Hfind.
+  - apply find_id_In in Hfind. destruct Hfind as [Ho Eo].
+    destruct (same_keys old f) eqn:Hsk.
+    + apply same_keys_true in Hsk. destruct Hsk as [Ec Et].
+      split; [exact Hts|]. split; [exact Hcs|]. split; [|split; [|split]].
+      * intros k Hk. apply Ht in Hk. destruct Hk as (g & Hg & ->).
+        exists g. split; [exact Hg|]. split; [reflexivity|]. intros Eg.
+        assert (g = old) by (eapply sorted_id_unique; eauto; congruence). subst g.
+        apply tkey_same; assumption.
+      * intros g Hg _. apply Ht. exists g. auto.
+      * intros k Hk. apply Hc in Hk. destruct Hk as (g & Hg & ->).
+        exists g. split; [exact Hg|]. split; [reflexivity|]. intros Eg.
+        assert (g = old) by (eapply sorted_id_unique; eauto; congruence). subst g.
+        apply ckey_same; assumption.
+      * intros g Hg _. apply Hc. exists g. auto.
+    + cbn [s_itopic s_ictx].
+      split; [apply kv_del_sorted; exact Hts|]. split; [apply kv_del_sorted; exact Hcs|].
+      split; [|split; [|split]].
+      * intros k Hk. apply kv_del_keys in Hk. destruct Hk as [Hne Hk].
+        apply Ht in Hk. destruct Hk as (g & Hg & ->).
+        exists g. split; [exact Hg|]. split; [reflexivity|]. intros Eg. exfalso. apply Hne.
+        assert (g = old) by (eapply sorted_id_unique; eauto; congruence). subst g. reflexivity.
+      * intros g Hg Hne. apply kv_del_keys. split; [|apply Ht; exists g; auto]. intros E.
+        destruct (Hok g Hg) as (_ & _ & Hgn). destruct (Hok old Ho) as (_ & _ & Hon).
+        apply tkey_inj in E; try assumption; try (apply frame_ok_idok; auto).
+        destruct E as [E _]. congruence.
+      * intros k Hk. apply kv_del_keys in Hk. destruct Hk as [Hne Hk].
+        apply Hc in Hk. destruct Hk as (g & Hg & ->).
+        exists g. split; [exact Hg|]. split; [reflexivity|]. intros Eg. exfalso. apply Hne.
+        assert (g = old) by (eapply sorted_id_unique; eauto; congruence). subst g. reflexivity.
+      * intros g Hg Hne. apply kv_del_keys. split; [|apply Hc; exists g; auto]. intros E.
+        apply ckey_inj in E; try (apply frame_ok_idok; auto).
+        destruct E as [E _]. congruence.
+  - pose proof (find_id_none _ _ Hfind) as Hnone.
+    split; [exact Hts|]. split; [exact Hcs|]. split; [|split; [|split]].
+    + intros k Hk. apply Ht in Hk. destruct Hk as (g & Hg & ->).
+      exists g. split; [exact Hg|]. split; [reflexivity|]. intros Eg.
+      exfalso. exact (Hnone g Hg Eg).
+    + intros g Hg _. apply Ht. exists g. auto.
+    + intros k Hk. apply Hc in Hk. destruct Hk as (g & Hg & ->).
+      exists g. split; [exact Hg|]. split; [reflexivity|]. intros Eg.
+      exfalso. exact (Hnone g Hg Eg).
+    + intros g Hg _. apply Hc. exists g. auto.
+Qed.
+
+(* the registry after [drop_old].  [Store.drop_old] deletes the overwritten frame's id from the
+   registry when that frame registered a context, even when that id is 0 -- but 0 is always a
+   usable context in the spec; hence the premise (cf. [remove_inv] below) *)
+Lemma drop_old_ctxs s a f c :
+  Inv s a -> f_id f < two128 ->
+  (forall old, In old (a_live a) -> f_id old = f_id f -> registers old = true -> f_id f <> 0) ->
+  (mem c (s_ctxs (drop_old s f)) = true ->
+     mem c (a_ctxs (a_delete (f_id f) (a_live a))) = true \/ (c = f_id f /\ registers f = true)) /\
+  (mem c (a_ctxs (a_delete (f_id f) (a_live a))) = true -> mem c (s_ctxs (drop_old s f)) = true).
+Proof.
+  intros HI Hi Hz.
+  pose proof (inv_sorted _ _ HI) as Hs. pose proof (inv_ctxs _ _ HI) as Hx.
+  rewrite a_ctxs_delete_mem.
+  unfold drop_old. rewrite (get_spec _ _ _ HI Hi). unfold a_get.
+  destruct (find (fun g => f_id g =? f_id f) (a_live a)) as [old|] eqn:Hfind.
+  - apply find_id_In in Hfind. destruct Hfind as [Ho Eo].
+    destruct (same_keys old f) eqn:Hsk.
+    + apply same_keys_true in Hsk. destruct Hsk as [Ec Et].
+      rewrite Hx, a_ctxs_mem. split.
+      * intros [H0|(g & Hg & Hr & E)]; [left; left; exact H0|].
+        destruct (N.eq_dec (f_id g) (f_id f)) as [Ei|Ei].
+        -- right. split; [congruence|].
+           assert (g = old) by (eapply sorted_id_unique; eauto; congruence). subst g.
+           unfold registers in *. rewrite <- Ec, <- Et. exact Hr.
+        -- left. right. exists g. auto.
+      * intros [H0|(g & Hg & Hn & Hr & E)]; [left; exact H0|]. right. exists g. auto.
+    + cbn [s_ctxs]. destruct (registers old) eqn:Hro.
+      * rewrite mem_set_del, andb_true_iff, negb_true_iff, N.eqb_neq, Hx, a_ctxs_mem. split.
+        -- intros [Hne [H0|(g & Hg & Hr & E)]]; [left; left; exact H0|].
+           left. right. exists g. split; [exact Hg|]. split; [congruence|auto].
+        -- intros [H0|(g & Hg & Hn & Hr & E)].
+           ++ split; [|left; exact H0]. subst c. rewrite Eo. apply (Hz old); assumption.
+           ++ split; [congruence|]. right. exists g. auto.
+      * rewrite Hx, a_ctxs_mem. split.
+        -- intros [H0|(g & Hg & Hr & E)]; [left; left; exact H0|].
+           left. right. exists g. split; [exact Hg|]. split; [|auto]. intros Ei.
+           assert (g = old) by (eapply sorted_id_unique; eauto; congruence). subst g. congruence.
+        -- intros [H0|(g & Hg & Hn & Hr & E)]; [left; exact H0|]. right. exists g. auto.
+  - pose proof (find_id_none _ _ Hfind) as Hnone.
+    rewrite Hx, a_ctxs_mem. split.
+    + intros [H0|(g & Hg & Hr & E)]; [left; left; exact H0|].
+      left. right. exists g. split; [exact Hg|]. split; [apply Hnone; exact Hg|auto].
+    + intros [H0|(g & Hg & Hn & Hr & E)]; [left; exact H0|]. right. exists g. auto.
+Qed.
+
+(* registry of the whole insert: [f]'s own registration on top of [drop_old] *)
+Lemma insert_ctxs s a f c :
+  Inv s a -> f_id f < two128 ->
+  (forall old, In old (a_live a) -> f_id old = f_id f -> registers old = true -> f_id f <> 0) ->
+  mem c (if registers f then set_add (f_id f) (s_ctxs (drop_old s f)) else s_ctxs (drop_old s f))
+  = mem c (a_ctxs (a_insert f (a_live a))).
+Proof.
+  intros HI Hi Hz. rewrite (a_ctxs_insert c f _ (inv_sorted _ _ HI)).
+  destruct (drop_old_ctxs s a f c HI Hi Hz) as [D1 D2].
+  apply eq_iff_eq_true. destruct (registers f) eqn:Hr; cbn [andb].
+  - rewrite mem_set_add, !orb_true_iff, N.eqb_eq. split.
+    + intros [E|H]; [left; exact E|]. destruct (D1 H) as [H'|[E _]]; auto.
+    + intros [E|H]; [left; exact E|right; apply D2; exact H].
+  - cbn [orb]. split.
+    + intros H. destruct (D1 H) as [H'|[_ E]]; [exact H'|discriminate].
+    + apply D2.
+Qed.
+
 Lemma insert_inv_gen s a f cs q n b :
-  Inv s a -> frame_ok f -> import_ok f (a_live a) = true ->
+  Inv s a -> frame_ok f ->
   (registers f = true -> ttl_persistent (f_ttl f) = true) ->
   (forall c, mem c cs = mem c (a_ctxs (a_insert f (a_live a)))) ->
   Forall task_ok q ->
-  Inv (mkStore (kv_put (skey (f_id f)) f (s_stream s)) (kv_put (tkey f) tt (s_itopic s))
-               (kv_put (ckey f) tt (s_ictx s)) cs q n b)
+  Inv (mkStore (kv_put (skey (f_id f)) f (s_stream s))
+               (kv_put (tkey f) tt (s_itopic (drop_old s f)))
+               (kv_put (ckey f) tt (s_ictx (drop_old s f))) cs q n b)
       (mkA (a_insert f (a_live a)) q n b).
 Proof.
-  intros HI Hf Himp Hper Hcsx Hqok. pose proof (Inv_bounded _ _ HI) as Hbd.
-  destruct HI as [Hs Hok Hst Hts Ht Hcs Hc Hx Hp Hq Hqo Hn Hb].
+  intros HI Hf Hper Hcsx Hqok. pose proof (Inv_bounded _ _ HI) as Hbd.
+  destruct (drop_old_index s a f HI (proj1 Hf)) as (Hts & Hcs & Kt1 & Kt2 & Kc1 & Kc2).
+  destruct HI as [Hs Hok Hst _ _ _ _ Hx Hp Hq Hqo Hn Hb].
   constructor; cbn [a_live a_gcq a_now a_bcast s_stream s_itopic s_ictx s_ctxs s_gcq s_now s_bcast].
   - apply a_insert_sorted; exact Hs.
   - apply a_insert_Forall; assumption.
   - rewrite Hst. apply stream_put; [exact (proj1 Hf)|exact Hbd].
   - apply kv_put_sorted; exact Hts.
-  - intros k. rewrite kv_put_keys, Ht. split.
-    + intros [->|(g & Hg & ->)].
+  - intros k. rewrite kv_put_keys. split.
+    + intros [->|Hk].
       * exists f. split; [apply a_insert_In; auto|reflexivity].
-      * destruct (N.eq_dec (f_id g) (f_id f)) as [Ei|Ei].
-        -- destruct (import_ok_same _ _ _ Himp Hg Ei) as [Ec Et].
-           exists f. split; [apply a_insert_In; auto|apply tkey_same; assumption].
+      * destruct (Kt1 k Hk) as (g & Hg & -> & Hsame).
+        destruct (N.eq_dec (f_id g) (f_id f)) as [Ei|Ei].
+        -- exists f. split; [apply a_insert_In; auto|apply Hsame; exact Ei].
         -- exists g. split; [apply a_insert_In; auto|reflexivity].
     + intros (g & Hg & ->). apply a_insert_In in Hg; [|exact Hs].
-      destruct Hg as [->|[Hg _]]; [left; reflexivity|right; exists g; auto].
+      destruct Hg as [->|[Hg Hne]]; [left; reflexivity|right; apply Kt2; assumption].
   - apply kv_put_sorted; exact Hcs.
-  - intros k. rewrite kv_put_keys, Hc. split.
-    + intros [->|(g & Hg & ->)].
+  - intros k. rewrite kv_put_keys. split.
+    + intros [->|Hk].
       * exists f. split; [apply a_insert_In; auto|reflexivity].
-      * destruct (N.eq_dec (f_id g) (f_id f)) as [Ei|Ei].
-        -- destruct (import_ok_same _ _ _ Himp Hg Ei) as [Ec Et].
-           exists f. split; [apply a_insert_In; auto|apply ckey_same; assumption].
+      * destruct (Kc1 k Hk) as (g & Hg & -> & Hsame).
+        destruct (N.eq_dec (f_id g) (f_id f)) as [Ei|Ei].
+        -- exists f. split; [apply a_insert_In; auto|apply Hsame; exact Ei].
         -- exists g. split; [apply a_insert_In; auto|reflexivity].
     + intros (g & Hg & ->). apply a_insert_In in Hg; [|exact Hs].
-      destruct Hg as [->|[Hg _]]; [left; reflexivity|right; exists g; auto].
+      destruct Hg as [->|[Hg Hne]]; [left; reflexivity|right; apply Kc2; assumption].
   - exact Hcsx.
   - apply a_insert_Forall; assumption.
   - reflexivity.
@@ -408,11 +565,16 @@ Qed.
 Lemma lt_two128_max128 c : c < two128 -> c <> max128 -> c < max128.
 Proof. unfold max128. lia. Qed.
 
-Theorem refines_import : forall f, refines_op (OImport f).
+(* import, under the premise that the overwritten frame (if any) is not the registration of
+   context 0: see [refines_import_zs], [refines_import_nz], [refines_import_false] below *)
+Lemma import_refines f s a :
+  Inv s a -> hyp_ok a (OImport f) = true ->
+  (forall old, In old (a_live a) -> f_id old = f_id f -> registers old = true -> f_id f <> 0) ->
+  fst (step s (OImport f)) = fst (a_step a (OImport f)) /\
+  Inv (snd (step s (OImport f))) (snd (a_step a (OImport f))).
 Proof.
-  intros f s a HI Hh. cbn [hyp_ok] in Hh.
+  intros HI Hh Hz. cbn [hyp_ok] in Hh.
   apply andb_true_iff in Hh. destruct Hh as [Hh Hper].
-  apply andb_true_iff in Hh. destruct Hh as [Hh Himp].
   apply andb_true_iff in Hh. destruct Hh as [Hh Hmax].
   apply andb_true_iff in Hh. destruct Hh as [Hid Hctx].
   unfold id_ok in Hid, Hctx. apply N.ltb_lt in Hid, Hctx.
@@ -421,14 +583,12 @@ Proof.
   destruct (has_nul (f_topic f)) eqn:Hn; cbn [fst snd andb].
   - split; [reflexivity|exact HI].
   - split; [reflexivity|].
+    destruct (drop_old_same s f) as (E1 & E2 & E3 & E4). rewrite E1, E2, E3, E4.
     rewrite (inv_gcq _ _ HI), (inv_now _ _ HI), (inv_bcast _ _ HI).
     apply insert_inv_gen; try assumption.
     + split; [exact Hid|split; [apply lt_two128_max128; assumption|exact Hn]].
     + destruct (registers f); cbn [negb orb] in Hper; [auto|discriminate].
-    + intros c. rewrite (a_ctxs_insert c f _ (inv_sorted _ _ HI) Himp).
-      destruct (registers f); cbn [andb orb].
-      * rewrite mem_set_add, (inv_ctxs _ _ HI). reflexivity.
-      * apply (inv_ctxs _ _ HI).
+    + intros c. apply insert_ctxs; assumption.
     + exact (inv_gcq_ok _ _ HI).
 Qed.
 
@@ -473,10 +633,12 @@ Lemma append_insert_inv s a f cs q b :
       (mkA (a_insert f (a_live a)) q (a_now a) b).
 Proof.
   intros HI Hf Hfr Hper Hcs Hq. rewrite (inv_now _ _ HI).
-  apply insert_inv_gen; try assumption.
-  - apply fresh_import_ok; exact Hfr.
-  - intros c. rewrite Hcs, (inv_ctxs _ _ HI).
-    rewrite (a_ctxs_insert c f _ (inv_sorted _ _ HI) (fresh_import_ok _ _ Hfr)). reflexivity.
+  assert (Hg : get s (f_id f) = None).
+  { rewrite (get_spec _ _ _ HI (proj1 Hf)). apply fresh_find; exact Hfr. }
+  pose proof (insert_inv_gen s a f cs q (a_now a) b HI Hf Hper) as H.
+  rewrite (drop_old_fresh _ _ Hg) in H. apply H; [|exact Hq].
+  intros c. rewrite Hcs, (inv_ctxs _ _ HI), (a_ctxs_insert c f _ (inv_sorted _ _ HI)).
+  rewrite a_delete_absent; [reflexivity|]. apply find_id_none. apply fresh_find; exact Hfr.
 Qed.
 
 Lemma Forall_snoc {A} (P : A -> Prop) l x : Forall P l -> P x -> Forall P (l ++ [x]).
@@ -492,12 +654,15 @@ Proof.
   apply andb_true_iff in Hh. destruct Hh as [Hid Hfr].
   unfold id_ok in Hid. apply N.ltb_lt in Hid.
   apply negb_true_iff, N.eqb_neq in Hmax.
+  assert (Hg0 : get s i = None).
+  { rewrite (get_spec _ _ _ HI Hid). apply fresh_find; exact Hfr. }
   unfold append, a_append. cbn [f_id f_ctx f_topic f_hash f_meta f_ttl].
   destruct (is_ctx_topic (f_topic f0)) eqn:Hc; cbn [andb negb].
   - destruct (f_ctx f0 =? 0) eqn:Hz; cbn [negb].
     + cbn [f_topic f_ttl f_ctx f_id]. rewrite (ctx_topic_nonul _ Hc).
       unfold insert_frame, insert_frame_gen. cbn [f_topic f_ttl f_ctx f_id].
       rewrite (ctx_topic_nonul _ Hc).
+      rewrite drop_old_fresh by exact Hg0.
       cbn [fst snd s_stream s_itopic s_ictx s_ctxs s_gcq s_now s_bcast andb].
       split; [reflexivity|].
       set (f := mkFrame i (f_ctx f0) (f_topic f0) (f_hash f0) (f_meta f0) (Some Forever)).
@@ -527,6 +692,7 @@ Proof.
         destruct (f_ttl f0) as [[| |ms|n]|] eqn:Ht;
           unfold insert_frame, insert_frame_gen; cbn [f_topic f_ttl f_ctx f_id];
           try rewrite Hn;
+          try (rewrite drop_old_fresh by exact Hg0);
           cbn [fst snd s_stream s_itopic s_ictx s_ctxs s_gcq s_now s_bcast andb];
           (split; [reflexivity|]);
           try rewrite Hr; rewrite (inv_gcq _ _ HI), (inv_bcast _ _ HI).
@@ -567,12 +733,6 @@ Qed.
 
 Lemma ids_nonzero_zero_safe l : Forall (fun f => f_id f <> 0) l -> zero_safe l.
 Proof. apply Forall_impl. intros f H _. exact H. Qed.
-
-Lemma get_spec s a i : Inv s a -> i < two128 -> get s i = a_get a i.
-Proof.
-  intros HI Hi. unfold get, a_get. rewrite (inv_stream _ _ HI).
-  apply stream_get; [exact Hi|apply (Inv_bounded _ _ HI)].
-Qed.
 
 Lemma a_ctxs_delete l f c :
   StronglySorted id_lt l -> In f l ->
@@ -675,6 +835,33 @@ Qed.
 
 (* machine-checked counterexample to the statement as given *)
 Theorem refines_remove_false : ~ refines_op (ORemove 0).
+Proof.
+  intros H.
+  pose (f0 := mkFrame 0 0 xs_context None None None).
+  destruct (refines_append 0 f0 _ _ (inv_init 0) eq_refl) as [_ HI1].
+  destruct (H _ _ HI1 eq_refl) as [_ HI2].
+  pose proof (inv_ctxs _ _ HI2 0) as E. vm_compute in E. discriminate.
+Qed.
+
+(* import: the same three shapes as remove.  [Store.drop_old] deletes the id of an overwritten
+   zero-context xs.context frame from the registry even when that id is 0. *)
+Theorem refines_import_zs : forall f s a,
+  Inv s a -> zero_safe (a_live a) -> hyp_ok a (OImport f) = true ->
+  fst (step s (OImport f)) = fst (a_step a (OImport f)) /\
+  Inv (snd (step s (OImport f))) (snd (a_step a (OImport f))).
+Proof.
+  intros f s a HI Hz Hh. apply import_refines; [exact HI|exact Hh|].
+  intros old Ho Eo Hr. apply (zero_safe_hyp _ _ Hz old Ho Eo).
+  unfold registers in Hr. apply andb_true_iff in Hr. exact (proj1 Hr).
+Qed.
+
+Theorem refines_import_nz : forall f, f_id f <> 0 -> refines_op (OImport f).
+Proof. intros f Hnz s a HI Hh. apply import_refines; [exact HI|exact Hh|]. intros _ _ _ _. exact Hnz. Qed.
+
+(* machine-checked counterexample to [forall f, refines_op (OImport f)]: an xs.context frame
+   with id 0 is live in context 0; importing id 0 again under another topic unregisters 0 *)
+Theorem refines_import_false :
+  ~ refines_op (OImport (mkFrame 0 0 [97] None None None)).
 Proof.
   intros H.
   pose (f0 := mkFrame 0 0 xs_context None None None).
@@ -909,7 +1096,7 @@ Lemma gc_cex_state :
               a_live a = [mkFrame 0 5 xs_context None None (Some (Time 0))].
 Proof.
   pose (f1 := mkFrame 0 5 xs_context None None (Some (Time 0))).
-  destruct (refines_import f1 _ _ (inv_init 0) eq_refl) as [_ HI1].
+  destruct (refines_import_zs f1 _ _ (inv_init 0) (Forall_nil _) eq_refl) as [_ HI1].
   assert (Hq : Forall task_ok [GcRemove 0]).
   { constructor; [|constructor]. cbn [task_ok]. pose proof max128_pos. pose proof max128_lt. lia. }
   pose proof (Inv_set_gcq _ _ _ HI1 Hq) as HI2.
@@ -1009,7 +1196,10 @@ Qed.
 Theorem refines_append_z : forall i f, refines_op_z (OAppend i f).
 Proof. intros. apply refines_op_lift, refines_append. Qed.
 Theorem refines_import_z : forall f, refines_op_z (OImport f).
-Proof. intros. apply refines_op_lift, refines_import. Qed.
+Proof.
+  intros f s a [HI Hz] Hh Hn. destruct (refines_import_zs f s a HI Hz Hh) as [H1 H2].
+  split; [exact H1|split; [exact H2|apply zero_safe_step; assumption]].
+Qed.
 Theorem refines_setnow_z : forall n, refines_op_z (OSetNow n).
 Proof. intros. apply refines_op_lift, refines_setnow. Qed.
 Theorem refines_head_z : forall t c, refines_op_z (OHead t c).
@@ -1034,9 +1224,86 @@ Lemma invz_init now : InvZ (empty_store now) (a_empty now).
 Proof. split; [apply inv_init|constructor]. Qed.
 
 (* ------------------------------------------------------------------------ *)
+(* 12. overwriting import = remove the old frame, then insert as a fresh id (at the level of the
+   sorted lists); the pinned code, which left the old index entries behind, is refuted *)
+
+Lemma kv_del_above {V} k (l : kv V) :
+  Forall (fun e => lex_ltb k (fst e) = true) l -> kv_del k l = l.
+Proof.
+  intros H. unfold kv_del. apply filter_all. intros e He.
+  rewrite Forall_forall in H. apply H in He. apply negb_true_iff, bytes_eqb_neq.
+  apply lex_ltb_neq. exact He.
+Qed.
+
+Lemma kv_put_del {V} k (v : V) l :
+  StronglySorted key_lt l -> kv_put k v (kv_del k l) = kv_put k v l.
+Proof.
+  induction 1 as [|[k' v'] r Hs IH Hf]; [reflexivity|].
+  unfold key_lt in Hf. cbn [fst] in Hf.
+  change (kv_del k ((k', v') :: r))
+    with (if negb (bytes_eqb k k') then (k', v') :: kv_del k r else kv_del k r).
+  cbn [kv_put]. destruct (bytes_eqb k k') eqn:He; cbn [negb].
+  - apply bytes_eqb_eq in He. subst k'. rewrite lex_ltb_irrefl.
+    rewrite (kv_del_above k r Hf).
+    destruct r as [|[k2 v2] r2]; [reflexivity|]. cbn [kv_put].
+    apply Forall_inv in Hf. cbn [fst] in Hf. rewrite Hf. reflexivity.
+  - cbn [kv_put]. rewrite He. destruct (lex_ltb k k') eqn:Hlt.
+    + rewrite kv_del_above; [reflexivity|].
+      eapply Forall_impl; [|exact Hf]. intros e H. eapply lex_ltb_trans; eassumption.
+    + rewrite IH. reflexivity.
+Qed.
+
+Lemma a_insert_delete f l :
+  StronglySorted id_lt l -> a_insert f (a_delete (f_id f) l) = a_insert f l.
+Proof.
+  induction 1 as [|x l Hs IH Hf]; [reflexivity|].
+  unfold id_lt in Hf.
+  change (a_delete (f_id f) (x :: l))
+    with (if negb (f_id x =? f_id f) then x :: a_delete (f_id f) l else a_delete (f_id f) l).
+  assert (Habove : f_id f <= f_id x -> a_delete (f_id f) l = l).
+  { intros Hle. apply a_delete_absent. intros g Hg. rewrite Forall_forall in Hf.
+    apply Hf in Hg. lia. }
+  cbn [a_insert]. destruct (f_id x =? f_id f) eqn:He; cbn [negb].
+  - apply N.eqb_eq in He. rewrite <- He, N.ltb_irrefl, N.eqb_refl.
+    rewrite He, Habove by lia.
+    destruct l as [|y r]; [reflexivity|]. cbn [a_insert].
+    apply Forall_inv in Hf. rewrite <- He.
+    destruct (f_id x <? f_id y) eqn:E; [reflexivity|lia].
+  - apply N.eqb_neq in He. cbn [a_insert].
+    destruct (f_id f <? f_id x) eqn:Hlt.
+    + rewrite Habove by lia. reflexivity.
+    + destruct (f_id f =? f_id x) eqn:He2; [lia|]. rewrite IH. reflexivity.
+Qed.
+
+(* F7 on the pinned code: import id 5 under topic "a", then id 5 again under topic "b".  The
+   index entry of the first frame survives, so head of topic "a" answers with a frame of topic
+   "b"; the fixed [insert_frame] answers None, as the spec does. *)
+Lemma overwrite_leaves_index_refuted :
+  exists s f old f',
+    get s (f_id f) = Some old /\ f_ctx old = f_ctx f /\ f_topic old <> f_topic f /\
+    In (tkey old) (map fst (s_itopic (snd (insert_frame_leaves_index s f)))) /\
+    head_unguarded (snd (insert_frame_leaves_index s f)) (f_topic old) (f_ctx old) = Some f' /\
+    f_topic f' <> f_topic old /\
+    head_unguarded (snd (insert_frame s f)) (f_topic old) (f_ctx old) = None.
+Proof.
+  pose (f1 := mkFrame 5 0 [97] None None None).
+  pose (f2 := mkFrame 5 0 [98] None None None).
+  exists (snd (insert_frame_leaves_index (empty_store 0) f1)), f2, f1, f2.
+  split; [vm_compute; reflexivity|]. split; [reflexivity|].
+  split; [vm_compute; discriminate|].
+  split; [vm_compute; left; reflexivity|].
+  split; [vm_compute; reflexivity|].
+  split; [vm_compute; discriminate|].
+  vm_compute; reflexivity.
+Qed.
+
+(* ------------------------------------------------------------------------ *)
 
 Print Assumptions refines_append.
-Print Assumptions refines_import.
+Print Assumptions refines_import_zs.
+Print Assumptions refines_import_nz.
+Print Assumptions refines_import_false.
+Print Assumptions refines_import_z.
 Print Assumptions refines_setnow.
 Print Assumptions refines_head.
 Print Assumptions refines_remove_z.
@@ -1050,3 +1317,6 @@ Print Assumptions zero_safe_step.
 Print Assumptions refines_remove_zz.
 Print Assumptions refines_gcstep_zz.
 Print Assumptions refines_drain_zz.
+Print Assumptions overwrite_leaves_index_refuted.
+Print Assumptions kv_put_del.
+Print Assumptions a_insert_delete.
